@@ -373,7 +373,11 @@ func c19op(w *world.World, p *pool, r *rand.Rand, a world.Auth, keys *world.Keys
 			}
 		}
 	case 10:
-		if d := p.take(r, &p.devs); d != "" {
+		if r.Intn(2) == 0 {
+			// a new device authorization: device and user code are minted, signed and stored (left undecided: the harness's
+			// consent step reads the store's table directly and is not meant for concurrent use)
+			w.Device(url.Values{"client_id": {"conf-a"}, "scope": {"offline fosite"}}, a)
+		} else if d := p.take(r, &p.devs); d != "" {
 			out := w.Token(url.Values{"grant_type": {"urn:ietf:params:oauth:grant-type:device_code"}, "device_code": {d}}, a)
 			p.add(&p.rts, out.S("refresh_token"))
 		}
